@@ -166,7 +166,12 @@ func solverDiffOne(prop, tier, verif string) (*sdResult, error) {
 				// a secondary solver gets ten minutes per log; what it has not answered by then is counted as unknown
 				cctx, ccancel := context.WithTimeout(context.Background(), 10*time.Minute)
 				c := exec.CommandContext(cctx, s.argv[0], s.argv[1:]...)
-				c.Stdin = bytes.NewReader(append([]byte(s.pre), j.script...))
+				pre := s.pre
+				if j.strings && strings.HasPrefix(s.name, "z3") {
+					// z3's sequence solver rarely decides these; do not let it spend 20 s on each of thousands of queries
+					pre = "(set-option :timeout 1000)\n"
+				}
+				c.Stdin = bytes.NewReader(append([]byte(pre), j.script...))
 				outb, _ := c.CombinedOutput()
 				timedOut := cctx.Err() != nil
 				ccancel()
